@@ -761,7 +761,12 @@ class MarkdownNormalizer(Renderer):
         lines.append(f"| {' | '.join(normalized_delimiters)} |\n")
         for row in body:
             lines.append(self.render(row))
-        return "".join(lines)
+        # Every row is a line of its own: inside a list item or quote it needs the container prefix.
+        first_prefix, self._prefix = self._prefix, self._second_prefix
+        self._suppress_item_break = False
+        return "".join(
+            (first_prefix if i == 0 else self._second_prefix) + line for i, line in enumerate(lines)
+        )
 
     def render_table_row(self, element: gfm_elements.TableRow) -> str:
         """Render a row within a GFM table."""
